@@ -617,6 +617,40 @@ def session (w : World) (st : LState) (f : Flags) : List LOp → List (Obs × Bo
     | .run c l r => ((run w st c l r).1, (f.clean l || st.noCache), w.fresh l r) :: rest
     | _ => rest
 
+/-! #### `clear_all` / `clear_pipes` as the SEQUENCES they are
+
+`pypyr.cache.admin.clear_all()` is a list of `<cache>.clear()` calls, each one critical section under that
+cache's own lock, and `LoaderCache.clear_pipes()` a loop of `Loader.clear()` calls: between two of them any
+other thread may complete look-ups. `weave gap i cl` = the clears `cl` in their order with the operations
+`gap j` of other threads completed before the `j`-th clear (`gap (i + cl.length)` after the last one). -/
+
+/-- the layer a cache instance named in `clear_all` belongs to; caches that are not on a pipeline look-up's
+    path (`backoff_cache`, `pystring_namespace_cache`, `contextparser_cache`) have no counterpart here -/
+def clearOpOf : String → Option LOp
+  | "file_cache" => some .clearFiles
+  | "loader_cache" => some .clearLoaders
+  | "step_cache" => some .clearSteps
+  | _ => none
+
+def weave (gap : Nat → List LOp) : Nat → List LOp → List LOp
+  | i, [] => gap i
+  | i, c :: cs => gap i ++ c :: weave gap (i + 1) cs
+
+def LOp.isWorld : LOp → Bool
+  | .world _ => true
+  | _ => false
+
+def LOp.isClearLoaders : LOp → Bool
+  | .clearLoaders => true
+  | _ => false
+
+/-- the order condition: some `file_cache.clear()` (the INNER layer of the file loader's look-up path) comes
+    before some `loader_cache.clear()` (the OUTER layer, filled FROM the inner one) -/
+def innerFirst : List LOp → Bool
+  | [] => false
+  | .clearFiles :: rest => rest.any LOp.isClearLoaders || innerFirst rest
+  | _ :: rest => innerFirst rest
+
 end Stack
 
 
